@@ -767,9 +767,9 @@ Proof.
 Qed.
 
 Hypothesis J_init : forall f0 apps, fdl_new p = Ok f0 -> length apps = n -> G f0 ->
-  J f0 apps [] (-1) (mon_reset (view_of f0) 0) mon2_reset.
+  J f0 apps [] 0 (mon_reset (view_of f0) 0) mon2_reset.
 
-Theorem generic_sound_transcript apps ins : length apps = n -> ins_ok (-1) ins -> transcript_ok A ops p G apps ins ->
+Theorem generic_sound_transcript apps ins : length apps = n -> ins_ok 0 ins -> transcript_ok A ops p G apps ins ->
   forall k r, In (k, r) (monitor p n (model_transcript A ops p apps ins)) -> Q (rule_prop r).
 Proof.
   intros Hn Hok Hrun k r Hin. unfold monitor in Hin. destruct (builder_validb p); [|contradiction].
